@@ -19,6 +19,7 @@ enum E {
     Un(&'static str, Box<E>),
     Bin(&'static str, Box<E>, Box<E>),
     Cmp(&'static str, Box<E>, Box<E>),
+    Chain3(&'static str, &'static str, Box<E>, Box<E>, Box<E>),
     And(Box<E>, Box<E>),
     Or(Box<E>, Box<E>),
     Assign(usize, Box<E>),
@@ -44,6 +45,7 @@ fn sexp(e: &E) -> String {
         E::Un(op, a) => format!("(un {} {})", op, sexp(a)),
         E::Bin(op, a, b) => format!("(bin {} {} {})", op, sexp(a), sexp(b)),
         E::Cmp(op, a, b) => format!("(cmp {} {} {})", op, sexp(a), sexp(b)),
+        E::Chain3(o1, o2, a, b, c) => format!("(chain3 {} {} {} {} {})", o1, o2, sexp(a), sexp(b), sexp(c)),
         E::And(a, b) => format!("(and {} {})", sexp(a), sexp(b)),
         E::Or(a, b) => format!("(or {} {})", sexp(a), sexp(b)),
         E::Assign(x, a) => format!("(assign {} {})", x, sexp(a)),
@@ -61,7 +63,7 @@ fn size(e: &E) -> usize {
         E::Bin(_, a, b) | E::Cmp(_, a, b) | E::And(a, b) | E::Or(a, b) | E::Seq(a, b) | E::IfThen(a, b) => {
             1 + size(a) + size(b)
         }
-        E::Ite(a, b, c) => 1 + size(a) + size(b) + size(c),
+        E::Ite(a, b, c) | E::Chain3(_, _, a, b, c) => 1 + size(a) + size(b) + size(c),
     }
 }
 
@@ -76,6 +78,9 @@ fn inline(e: &E) -> String {
         E::Un(_, a) => format!("not ({})", inline(a)),
         E::Bin(op, a, b) => format!("({}) {} ({})", inline(a), sym(ARITH, op), inline(b)),
         E::Cmp(op, a, b) => format!("({}) {} ({})", inline(a), sym(CMP, op), inline(b)),
+        E::Chain3(o1, o2, a, b, c) => {
+            format!("({}) {} ({}) {} ({})", inline(a), sym(CMP, o1), inline(b), sym(CMP, o2), inline(c))
+        }
         E::And(a, b) => format!("({}) and ({})", inline(a), inline(b)),
         E::Or(a, b) => format!("({}) or ({})", inline(a), inline(b)),
         E::Assign(x, a) => format!("v{} = {}", x, inline(a)),
@@ -99,7 +104,7 @@ fn has_seq(e: &E) -> bool {
         E::Null | E::Bool(_) | E::Int(_) | E::Var(_) => false,
         E::Un(_, a) | E::Assign(_, a) | E::Compound(_, _, a) => has_seq(a),
         E::Bin(_, a, b) | E::Cmp(_, a, b) | E::And(a, b) | E::Or(a, b) | E::IfThen(a, b) => has_seq(a) || has_seq(b),
-        E::Ite(a, b, c) => has_seq(a) || has_seq(b) || has_seq(c),
+        E::Ite(a, b, c) | E::Chain3(_, _, a, b, c) => has_seq(a) || has_seq(b) || has_seq(c),
     }
 }
 
@@ -164,7 +169,7 @@ impl Gen<'_> {
         if depth == 0 {
             return self.var_or_lit();
         }
-        match self.rng.weighted(&[3, 2, 5, 3, 3, 3, 4, 2, 3, 2]) {
+        match self.rng.weighted(&[3, 2, 5, 3, 3, 3, 4, 2, 3, 2, 2]) {
             0 => self.var_or_lit(),
             1 => {
                 let op = *self.rng.pick(&["neg", "not"]);
@@ -214,10 +219,25 @@ impl Gen<'_> {
                 let f = self.expr(depth - 1);
                 E::Ite(Box::new(c), Box::new(t), Box::new(f))
             }
-            _ => {
+            9 => {
                 let c = self.expr(depth - 1);
                 let t = self.expr(depth - 1);
                 E::IfThen(Box::new(c), Box::new(t))
+            }
+            _ => {
+                // comparisons are right-associative on two levels (`== !=` below `< <= > >=`): the
+                // right operand is itself a comparison — i.e. the compiler chains — unless the
+                // first operator is relational and the second an equality (`(a < b) == c`)
+                let o1 = self.rng.pick(CMP).0;
+                let mut o2 = self.rng.pick(CMP).0;
+                let is_eq = |o: &str| o == "eq" || o == "ne";
+                if !is_eq(o1) && is_eq(o2) {
+                    o2 = "le";
+                }
+                let a = self.expr(depth - 1);
+                let b = self.expr(depth - 1);
+                let c = self.expr(depth - 1);
+                E::Chain3(o1, o2, Box::new(a), Box::new(b), Box::new(c))
             }
         }
     }
